@@ -118,6 +118,11 @@ def extract():
             problems.append(([key], "%s: pattern not found: %r" % (key, e)))
             t[key] = dflt
     try:
+        t["exportRefCopyRule"] = _export_ref_copy_rule()
+    except Exception as e:
+        problems.append((["exportRefCopyRule"], "exportRefCopyRule: pattern not found: %r" % e))
+        t["exportRefCopyRule"] = []
+    try:
         t.update(_export_builtin_params())
     except Exception as e:
         problems.append((["exportStaticFallbackFor", "exportStaticFallbackUnless"],
@@ -294,6 +299,62 @@ def _export_dummy_for():
     if not res:
         raise ValueError("no dummy assignment loop")
     return res
+
+
+def _export_ref_copy_rule():
+    """ParentTranslator.ref_copies: what the generated `_mx_copy_refs` does with a reference to a cells / space, by
+    reference mode.  -> exportRefCopyRule: [(mode | "*", action)] in source order of the if/elif chain; mode "none" is
+    `refmode is None` (model-level references), "*" an `else` branch that does something; action "base": the item
+    gets the base's object (`self.k = base.k`), "inside": the item's counterpart iff the object lies in the base
+    root (`... if base.k._mx_is_in(base_root) else base.k`).  An `else: raise` gives no entry."""
+    cls = _class(_parse("modelx/export/exporter.py"), "ParentTranslator")
+    fn = _method(cls, "ref_copies")
+    outer = [n for n in ast.walk(fn) if isinstance(n, ast.If) and _src_of(n.test) == "isinstance(v, (Cells, BaseSpace))"]
+    if len(outer) != 1:
+        raise ValueError("the branch for cells / spaces was not found")
+    chain = [n for n in outer[0].body if isinstance(n, ast.If)]
+    if len(chain) != 1:
+        raise ValueError("no single if-chain on refmode")
+
+    def modes(test):
+        if isinstance(test, ast.BoolOp) and isinstance(test.op, ast.Or):
+            res = []
+            for v in test.values:
+                res += modes(v)
+            return res
+        src = _src_of(test)
+        if src == "refmode is None":
+            return ["none"]
+        if isinstance(test, ast.Compare) and len(test.ops) == 1 and isinstance(test.ops[0], ast.Eq) and \
+                _src_of(test.left) == "refmode" and isinstance(test.comparators[0], ast.Constant):
+            return [test.comparators[0].value]
+        raise ValueError("unknown test on refmode: " + src)
+
+    def action(body):
+        src = "\n".join(_src_of(b) for b in body)
+        if len(body) == 1 and isinstance(body[0], ast.Raise):
+            return None
+        if "_mx_is_in(base_root)" in src and "result.append(" in src:
+            return "inside"
+        if src == "result.append(self_k + ' = ' + base_k)":
+            return "base"
+        raise ValueError("unknown action in ref_copies: " + src[:80])
+    rule = []
+    node = chain[0]
+    while True:
+        a = action(node.body)
+        for md in modes(node.test):
+            if a:
+                rule.append((md, a))
+        if len(node.orelse) == 1 and isinstance(node.orelse[0], ast.If):
+            node = node.orelse[0]
+            continue
+        if node.orelse:
+            a = action(node.orelse)
+            if a:
+                rule.append(("*", a))
+        break
+    return rule
 
 
 def _export_builtin_params():
@@ -768,6 +829,8 @@ def render(t):
         "def exportCallLoop : List String := " + _lean_str_list(t["exportCallLoop"]),
         "def exportReplaceOrder : List String := " + _lean_str_list(t["exportReplaceOrder"]),
         "def exportDummyFor : List String := " + _lean_str_list(t["exportDummyFor"]),
+        "def exportRefCopyRule : List (String × String) := [" + ", ".join(
+            '("%s", "%s")' % (a, b) for a, b in t["exportRefCopyRule"]) + "]",
         "def exportStaticFallbackFor : List String := " + _lean_str_list(t["exportStaticFallbackFor"]),
         "def exportStaticFallbackUnless : List String := " + _lean_str_list(t["exportStaticFallbackUnless"]),
         "def mxNamespaceOrder : List String := " + _lean_str_list(t["mxNamespaceOrder"]),
